@@ -27,6 +27,11 @@ func runC09(c *Ctx) {
 		c.Check(want(arg(a.setMeter, 1)), fk(f, "deduction"), a.setMeter, "new meter = GetSlashMeter(ctx).Sub(GetEffectiveValPower(ctx, resolved validator)); found "+describe(arg(a.setMeter, 1)))
 		c.Check(mustPassBefore(a.handle, a.setMeter), fk(f, "deduct-before-handle"), a.handle, "every path to HandleSlashPacket passes the meter write")
 		c.GuardedBy(a.setMeter, fk(f, "bounce-before-deduct"), a.meterNeg.Not())
+		// bounce ONLY when negative: an admitted packet with a non-negative meter is always deducted
+		good := []Lit{T(a.dataValid), T(a.packetValid), F(a.isDS), T(a.launched), T(a.inSet), F(a.meterNeg)}
+		for _, r := range reachableReturns(f, good...) {
+			c.MustPassWhen(r, []ssa.Instruction{a.setMeter}, fk(f, "bounce-only-when-negative"), good...)
+		}
 		// the tested meter and the deducted meter are the same read
 		var tested ssa.Value
 		for _, g := range ifsTesting(f, a.meterNeg.Fn) {
@@ -91,7 +96,7 @@ func runC09(c *Ctx) {
 	if f := c.Fn("pk.Keeper.ReplenishSlashMeter"); f != nil {
 		if s := c.one(f, false, "pk.Keeper.SetSlashMeter"); s != nil {
 			sum := PCall("math.Int.Add", -1, PCall("pk.Keeper.GetSlashMeter", -1, nil), allowance)
-			over := ABool("(meter+allowance).GT(allowance)", PCall("math.Int.GT", -1, sum, allowance))
+			over := ABool("(meter+allowance).GT(allowance)", POr(PCall("math.Int.GT", -1, sum, allowance), PCall("math.Int.LT", -1, allowance, sum)))
 			vT := valuesUnder(arg(s, 1), f, T(over))
 			vF := valuesUnder(arg(s, 1), f, F(over))
 			c.Check(len(ifsTesting(f, over.Fn)) == 1, fk(f, "cap-test"), s, "tests (meter+allowance) > allowance")
